@@ -13,6 +13,7 @@ import (
 	"fmt"
 	"io"
 	"os"
+	"os/exec"
 	"path/filepath"
 	"runtime"
 	"sort"
@@ -252,6 +253,61 @@ func project(n int) *types.Project {
 	return p
 }
 
+// TestSoloChild is the fresh-process side of the third oracle: the parent starts this very binary with
+// VERIF_SOLO_SEQ (layout files) and VERIF_SOLO_ROOTS (where the parent materialised them); the layouts are loaded
+// one after the other on one goroutine and the outcome of the LAST one is printed.
+func TestSoloChild(t *testing.T) {
+	seq := os.Getenv("VERIF_SOLO_SEQ")
+	if seq == "" {
+		t.Skip("not a child")
+	}
+	logrus.SetOutput(io.Discard)
+	var names, roots []string
+	if json.Unmarshal([]byte(seq), &names) != nil || json.Unmarshal([]byte(os.Getenv("VERIF_SOLO_ROOTS")), &roots) != nil || len(names) != len(roots) || len(names) == 0 {
+		fmt.Println("SOLO-CHILD bad arguments")
+		os.Exit(2)
+	}
+	var last outcome
+	for i, n := range names {
+		b, err := os.ReadFile(filepath.Join(os.Getenv("VERIF_LAYOUT_DIR"), n))
+		L := &Layout{}
+		if err != nil || json.Unmarshal(b, L) != nil {
+			fmt.Println("SOLO-CHILD cannot read layout", n)
+			os.Exit(2)
+		}
+		L.name, L.root = n, roots[i]
+		last = loadVia(L, &prng{x: 1}, false, os.Getenv("VERIF_SOLO_CLI") == "1", nil)
+	}
+	b, _ := json.Marshal(map[string]any{"ok": last.ok, "hash": last.hash, "err": last.err})
+	fmt.Println("SOLO-CHILD-RESULT " + string(b))
+}
+
+// freshProcess loads the sequence in a new process and returns the outcome of its last element.
+func freshProcess(names, roots []string, viaCLI bool) (outcome, error) {
+	nb, _ := json.Marshal(names)
+	rb, _ := json.Marshal(roots)
+	cmd := exec.Command(os.Args[0], "-test.run", "^TestSoloChild$", "-test.timeout", "120s")
+	cli := "0"
+	if viaCLI {
+		cli = "1"
+	}
+	cmd.Env = append(os.Environ(), "VERIF_SOLO_SEQ="+string(nb), "VERIF_SOLO_ROOTS="+string(rb), "VERIF_SOLO_CLI="+cli, "VERIF_OUT=", "GOMAXPROCS=2")
+	b, err := cmd.Output()
+	for _, line := range strings.Split(string(b), "\n") {
+		if rest, ok := strings.CutPrefix(line, "SOLO-CHILD-RESULT "); ok {
+			var m struct {
+				OK   bool   `json:"ok"`
+				Hash string `json:"hash"`
+				Err  string `json:"err"`
+			}
+			if json.Unmarshal([]byte(rest), &m) == nil {
+				return outcome{ok: m.OK, hash: m.Hash, err: m.Err}, nil
+			}
+		}
+	}
+	return outcome{}, fmt.Errorf("fresh-process child gave no result (%v): %s", err, string(b))
+}
+
 func TestRace(t *testing.T) {
 	dir := os.Getenv("VERIF_LAYOUT_DIR")
 	if dir == "" {
@@ -260,6 +316,7 @@ func TestRace(t *testing.T) {
 	logrus.SetOutput(io.Discard)
 	seed := uint64(envInt("VERIF_SEED", 1))
 	worker := envInt("VERIF_WORKER", 0)
+	workers := envInt("VERIF_WORKERS", 1)
 	budget := time.Duration(envInt("VERIF_BUDGET_S", 30)) * time.Second
 	maxGroups := envInt("VERIF_RUNS", 1<<30)
 	out := os.Getenv("VERIF_OUT")
@@ -273,7 +330,10 @@ func TestRace(t *testing.T) {
 	files, _ := filepath.Glob(filepath.Join(dir, "layout-*.json"))
 	sort.Strings(files)
 	layouts := map[string]*Layout{}
+	layoutIdx := map[string]int{}
 	solo := map[string]outcome{}
+	var loadedOrder []string // layouts in the order this process first loaded them
+	loadedSeen := map[string]bool{}
 	var replay *Group
 	if rp := os.Getenv("VERIF_REPLAY_GROUP"); rp != "" {
 		var g Group
@@ -298,6 +358,7 @@ func TestRace(t *testing.T) {
 			os.Exit(2)
 		}
 		layouts[L.name] = L
+		layoutIdx[L.name] = i
 		// NOTE: the solo outcomes are computed after the concurrent groups (see below): loading every layout
 		// once up front would warm any lazily initialised process-level state and hide first-use races
 	}
@@ -328,6 +389,21 @@ func TestRace(t *testing.T) {
 	runGroup = func(g Group, idx int) {
 		before := logSize()
 		switch g.Kind {
+		case "sequence":
+			// replay of a fresh-process difference: the sequence in one new process against its last element alone
+			var roots []string
+			for _, n := range g.Layouts {
+				roots = append(roots, layouts[n].root)
+			}
+			last := len(g.Layouts) - 1
+			alone, e1 := freshProcess(g.Layouts[last:], roots[last:], g.ViaCLI)
+			after, e2 := freshProcess(g.Layouts, roots, g.ViaCLI)
+			if e1 == nil && e2 == nil && (alone.ok != after.ok || alone.hash != after.hash) {
+				sc, _ := json.Marshal(g)
+				res.Violations = append(res.Violations, Violation{Property: "C19", Clause: "result-differs-from-fresh-process", Key: "load-result-differs-from-what-a-fresh-process-returns",
+					Detail: fmt.Sprintf("layout %s: alone ok=%v hash=%s err=%q; after the loads of %v: ok=%v hash=%s err=%q", g.Layouts[last], alone.ok, alone.hash, alone.err, g.Layouts[:last], after.ok, after.hash, after.err),
+					Engine: "race", RunIndex: idx, RunSeed: g.Seed, Scenario: sc})
+			}
 		case "loads":
 			var wg sync.WaitGroup
 			var ready atomic.Int32
@@ -345,6 +421,10 @@ func TestRace(t *testing.T) {
 				wg.Add(1)
 				i := i
 				L := layouts[g.Layouts[i]]
+				if !loadedSeen[L.name] {
+					loadedSeen[L.name] = true
+					loadedOrder = append(loadedOrder, L.name)
+				}
 				p := &prng{x: g.Seed + uint64(i)*0x9e37}
 				go func() {
 					defer wg.Done()
@@ -459,6 +539,31 @@ func TestRace(t *testing.T) {
 						res.Counters["solo-ok"]++
 					} else {
 						res.Counters["solo-err"]++
+					}
+					// third oracle: "what it would return alone" is what a process that has done nothing else
+					// returns. The layouts are shared out among the workers (each is checked by one of them).
+					if replay != nil || layoutIdx[name]%workers == worker%workers {
+						fresh, err := freshProcess([]string{name}, []string{layouts[name].root}, pc.g.ViaCLI)
+						switch {
+						case err != nil:
+							fmt.Fprintln(os.Stderr, err)
+							res.Counters["fresh-process-child-failed"]++
+						case fresh.ok != s.ok || fresh.hash != s.hash:
+							// which earlier load does it take? try each one, sequentially, in a process of its own
+							g := Group{Kind: "sequence", Layouts: append(append([]string(nil), loadedOrder...), name), ViaCLI: pc.g.ViaCLI, Seed: pc.g.Seed}
+							for _, p := range loadedOrder {
+								if two, err := freshProcess([]string{p, name}, []string{layouts[p].root, layouts[name].root}, pc.g.ViaCLI); err == nil && (two.ok != fresh.ok || two.hash != fresh.hash) {
+									g.Layouts = []string{p, name}
+									break
+								}
+							}
+							sc, _ := json.Marshal(g)
+							res.Violations = append(res.Violations, Violation{Property: "C19", Clause: "result-differs-from-fresh-process", Key: "load-result-differs-from-what-a-fresh-process-returns",
+								Detail: fmt.Sprintf("layout %s: in a fresh process ok=%v hash=%s err=%q; in this process, after the loads of %v: ok=%v hash=%s err=%q", name, fresh.ok, fresh.hash, fresh.err, g.Layouts[:len(g.Layouts)-1], s.ok, s.hash, s.err),
+								Engine: "race", RunIndex: pc.idx, RunSeed: pc.g.Seed, Scenario: sc})
+						default:
+							res.Counters["fresh-process-comparisons"]++
+						}
 					}
 				}
 				if o.ok != s.ok || o.hash != s.hash {
